@@ -27,7 +27,7 @@ ASSUMPTIONS = [
     "default on an AnyField (the caller's object is handed out like a mutable default argument) and mutable items "
     "nested inside an untyped container default (only the container is copied) are not mutated by the harness",
 ]
-REQUIRED = ["filled-from-tree", "include-load", "serialize", "cross-assign+edit", "cross-assign+edit:list", "cross-assign+edit:dict", "observer:before", "observer:middle", "observer:after", "inplace:typed", "inplace:untyped", "shared-item-type", "dynamic-add"]
+REQUIRED = ["equal-twins:take-over+edit", "filled-from-tree", "include-load", "serialize", "cross-assign+edit", "cross-assign+edit:list", "cross-assign+edit:dict", "observer:before", "observer:middle", "observer:after", "inplace:typed", "inplace:untyped", "shared-item-type", "dynamic-add"]
 LEVEL_TEXT = (
     "Generated schemas and histories on one instance with an untouched observer instance and a frozen schema "
     "snapshot as oracle; kills mutants that stop copying default containers, register dynamic fields on the "
@@ -347,6 +347,36 @@ def run_case(case, R):
                                lambda: "A took over C's %s and edited its own value in place; C changed: %s" % (".".join(path), worlds.diff(csnap, now))):
                     csnap = now
             observers.append((c, csnap))
+
+        # two pristine (hence EQUAL) configurations: one takes over the other's typed containers one by one and edits its own
+        from . import c02 as _c02
+        d1, d2 = world.schema(key_filename=keyfile), world.schema(key_filename=keyfile)
+        for path, node in containers:
+            theirs = worlds.get_path(d1, path)
+            if theirs is None:
+                continue
+            item = None
+            for raw in case.get("bfill", {}).get(".".join(path), []):
+                value = _c02._filter_valid(node, specs.realize(raw), world.ctx)
+                if value and isinstance(value, (dict, list, tuple)):
+                    item = list(value.items())[0] if isinstance(value, dict) else value[0]
+                    break
+            if item is None:
+                continue
+            d1snap = worlds.snapshot(d1, cc)
+            try:
+                ops.set_via(d2, path, theirs, "setattr")
+                mine = worlds.get_path(d2, path)
+                if isinstance(mine, dict):
+                    mine[item[0]] = item[1]
+                else:
+                    mine.append(item)
+            except Exception:
+                continue
+            R.label("equal-twins:take-over+edit")
+            now = worlds.snapshot(d1, cc)
+            R.check(now == d1snap, "isolated", "equal-twins:" + node["kind"],
+                    lambda: "two pristine configurations: D2 took over D1's %s and edited its own value in place; D1 changed: %s" % (".".join(path), worlds.diff(d1snap, now)))
 
         # a further configuration is filled from A's own tree (to_tree -> load_tree, no document in between); after that,
         # in-place edits of A's untyped lists / dicts must not show in it, nor the other way round
